@@ -22,9 +22,11 @@ pub struct Accept<IO> { _p: core::marker::PhantomData<IO> }
 
 impl<IO> Accept<IO> {
     pub uninterp spec fn io(&self) -> IO;
+    /// the most recent poll returned Pending (the socket holds the task's waker)
+    pub uninterp spec fn hs_parked(&self) -> bool;
     #[verifier::external_body]
     pub fn poll(&mut self, cx: &mut Context<'_>) -> (r: Poll<io::Result<tokio_rustls::server::TlsStream<IO>>>)
-        ensures final(self).io() == old(self).io(),
+        ensures final(self).io() == old(self).io(), final(self).hs_parked() == (r is Pending),
     { unimplemented!() }
 }
 
@@ -120,6 +122,8 @@ impl<IO> AcceptFut<IO> {
         r matches Poll::Ready(Err(TlsError::Timeout)) ==> now_spec() >= old(self).timeout.deadline(),
         // a working stream is the handshake's own stream; a TLS error is the handshake's own error
         r matches Poll::Ready(Err(e)) ==> e is Timeout || e is Tls,
+        // Pending only with BOTH wake-ups arranged: the handshake's socket and the handshake timer   [C18]
+        r is Pending ==> final(self).timeout.parked() && final(self).fut.hs_parked(),   // [C18]
 //@end
 
 }
